@@ -15,12 +15,14 @@
 (* SameLanguage.                                                           *)
 (***************************************************************************)
 EXTENDS Integers, Sequences, FiniteSets, TLC
-CONSTANTS Level,                 \* 1 = quick enumeration, 2 = thorough
+CONSTANTS Level,                 \* 0 = focus set of the what-ifs, 1 = quick enumeration, 2 = thorough
+          Slice,                 \* 0 = everything; k > 0 = only the terms built around the k-th context
           ExportFinds,           \* TRUE: export Find(e, s) for every subject (matcher validation)
           GuardAltMeta,          \* x|y|z => [xyz] escapes the class metacharacters - and ]
           GuardBrace,            \* [{] is not unwrapped (a following `2}` would become a repeat)
           GuardZeroCap,          \* x{0} is dropped only if x contains no capture group
           GuardEmptyAlt,         \* an empty alternative is not a literal for prefix/suffix factoring
+          PadOctal,              \* \01 is printed as \001, so that a digit that becomes its neighbour does not join the escape
           GuardPrefixOrder       \* ab|aba => aba? only if the longer literal comes first (leftmost-first choice)
 
 Sym == {"SOH", " ", ",", "-", ".", "0", "2", "9", ":", "]", "^", "a", "b", "c", "z", "{", "}"}
@@ -40,6 +42,7 @@ EscM(c)     == [op |-> "escm", c |-> c]                    \* OpEscapeMeta  \. \
 EscC(c)     == [op |-> "escc", c |-> c]                    \* OpEscapeChar of a punctuation char  \, \: (and \. \^ inside a class)
 EscK(k)     == [op |-> "esck", k |-> k]                    \* OpEscapeChar naming a class  \d \w \s \D \W \S
 Oct         == [op |-> "oct"]                              \* \01
+Oct3        == [op |-> "oct3"]                             \* \001, how the simplifier prints \01 (PadOctal)
 Rng(l, h)   == [op |-> "rng", l |-> l, h |-> h]
 Posix(k, n) == [op |-> "posix", k |-> k, neg |-> n]        \* [:digit:] [:^word:]
 Cls(items)  == [op |-> "cls", items |-> items]
@@ -65,6 +68,7 @@ Show(e) ==
     [] e.op \in {"escm", "escc"} -> <<"\\", e.c>>
     [] e.op = "esck"  -> <<"\\", e.k>>
     [] e.op = "oct"   -> <<"\\", "0", "1">>
+    [] e.op = "oct3"  -> <<"\\", "0", "0", "1">>
     [] e.op = "rng"   -> <<e.l, "-", e.h>>
     [] e.op = "posix" -> <<"[:">> \o (IF e.neg THEN <<"^">> ELSE <<>>) \o <<PosixName(e.k), ":]">>
     [] e.op = "cls"   -> <<"[">> \o ShowAll(e.items, <<>>) \o <<"]">>
@@ -198,19 +202,22 @@ Walk(e) ==
          ELSE IF e.op = "cls" /\ Len(e.items) = 1 /\ e.items[1].op \in {"escc", "esck"}
          THEN R(IF e.items[1].op = "escc" /\ e.items[1].c \in {".", "^"} THEN EscM(e.items[1].c) ELSE e.items[1], 1, {"SingleElemClass"})
          ELSE LET w == WalkItems(e.items) IN R(IF e.op = "cls" THEN Cls(w.e) ELSE NCls(w.e), w.n, w.a)
+    [] e.op = "oct"   -> R(IF PadOctal THEN Oct3 ELSE Oct, 0, {})
     [] e.op = "escc"  -> IF e.c \in Removable THEN R(Ch(e.c), 1, {"EscapeRemoval"}) ELSE R(e, 0, {})
     [] e.op = "star"  -> LET w == Walk(e.x) IN R(Star(w.e), w.n, w.a)
     [] e.op = "plus"  -> LET w == Walk(e.x) IN R(Plus(w.e), w.n, w.a)
     [] e.op = "quest" -> LET w == Walk(e.x) IN R(Quest(w.e), w.n, w.a)
     [] e.op = "lazy"  -> LET w == Walk(e.x) IN R(Lazy(w.e), w.n, w.a)
     [] OTHER -> R(e, 0, {})
-\* how a printed concatenation is read back: `{2}` after something repeatable is a repeat
+\* how a printed concatenation is read back: `{2}` after something repeatable is a repeat; \01 followed by 2 is the escape \012
 RECURSIVE Reread(_)
 RereadCat(xs) ==
   LET RECURSIVE G(_, _)
       G(k, acc) == IF k > Len(xs) THEN acc
                    ELSE IF acc # <<>> /\ k + 2 <= Len(xs) /\ xs[k] = Ch("{") /\ xs[k+1] = Ch("2") /\ xs[k+2] = Ch("}")
                         THEN G(k+3, SubSeq(acc, 1, Len(acc) - 1) \o <<Rep(acc[Len(acc)], "2")>>)
+                   ELSE IF k + 1 <= Len(xs) /\ xs[k] = Oct /\ xs[k+1] = Ch("2")
+                        THEN G(k+2, Append(acc, EscM("n")))                  \* a newline: matches nothing of the alphabet
                         ELSE G(k+1, Append(acc, Reread(xs[k])))
   IN G(1, <<>>)
 Reread(e) == CASE e.op = "cat" -> MkCat(RereadCat(e.xs))
@@ -242,14 +249,14 @@ Names(e) == CASE e.op = "ncap" -> <<"n">> \o Names(e.x)
 ItemSet(it) == CASE it.op = "ch" -> {it.c}
                  [] it.op \in {"escm", "escc"} -> {it.c}
                  [] it.op = "esck" -> KSet(it.k)
-                 [] it.op = "oct" -> {"SOH"}
+                 [] it.op \in {"oct", "oct3"} -> {"SOH"}
                  [] it.op = "dot" -> Sym
                  [] it.op = "rng" -> { c \in Sym : Code[it.l] <= Code[c] /\ Code[c] <= Code[it.h] }
                  [] it.op = "posix" -> IF it.neg THEN Sym \ KSet(it.k) ELSE KSet(it.k)
 AtomSet(e) == CASE e.op = "cls" -> UNION { ItemSet(e.items[k]) : k \in DOMAIN e.items }
                 [] e.op = "ncls" -> Sym \ UNION { ItemSet(e.items[k]) : k \in DOMAIN e.items }
                 [] OTHER -> ItemSet(e)
-IsAtom(e) == e.op \in {"ch", "escm", "escc", "esck", "oct", "dot", "cls", "ncls"}
+IsAtom(e) == e.op \in {"ch", "escm", "escc", "esck", "oct", "oct3", "dot", "cls", "ncls"}
 FlatMap(seq, F(_)) == LET RECURSIVE G(_) G(k) == IF k > Len(seq) THEN <<>> ELSE F(seq[k]) \o G(k+1) IN G(1)
 St(i, caps) == [i |-> i, caps |-> caps]
 \* M(e, s, st, base): results in priority order; base = number of capture groups opened before e
@@ -293,7 +300,7 @@ Find(e, s) == LET n == NCaps(e)
 \* ---- subjects: strings over the characters a pattern mentions plus one foreign character ----------
 RECURSIVE Ment(_)
 Ment(e) == CASE e.op \in {"ch", "escm", "escc"} -> {e.c}
-             [] e.op = "oct" -> {"SOH"}
+             [] e.op \in {"oct", "oct3"} -> {"SOH"}
              [] e.op \in {"esck", "posix"} -> {"2", " "}
              [] e.op = "rng" -> {e.l, e.h}
              [] e.op = "dot" -> {}
@@ -327,11 +334,14 @@ Pairs == { Alt(<<x, y>>) : x, y \in ChS } \cup { Cat(<<x, y>>) : x, y \in ChS }
 PostBase == IF Level <= 1 THEN Atoms0 \cup { Cls(<<Ch("a")>>), Cls(<<Ch("{")>>), Cls(<<Ch("a"), Ch("-")>>), NCls(<<EscK("s")>>), Cls(<<Rng("a", "b")>>) } ELSE T0
 T1 == T0 \cup Wrapped \cup NullableWrapped \cup Post(PostBase) \cup LazyOf(Atoms0) \cup Pairs
 \* contexts that change how a rewritten neighbour is read back
-Ctx == { Ch("a"), Ch("-"), Ch("2"), Ch("{"), Star(Ch("a")), Cap(Ch("a")), Rep(Cap(Ch("a")), "0"), Cls(<<Ch("a"), Ch("b")>>) }
-       \cup (IF Level <= 1 THEN {} ELSE { Dot, Ch(" "), Grp(Ch("a")), Grp(Alt(<<Ch("a"), Ch("-")>>)), EscC(","), Oct })
+CtxSeq == << Ch("a"), Ch("-"), Ch("2"), Ch("{"), Star(Ch("a")), Cap(Ch("a")), Rep(Cap(Ch("a")), "0"), Cls(<<Ch("a"), Ch("b")>>),
+            Dot, Ch(" "), Grp(Ch("a")), Grp(Alt(<<Ch("a"), Ch("-")>>)), EscC(","), Oct >>
+\* Slice = 0: every context (level 1: the first eight); Slice = k > 0: only the k-th context and nothing else (the thorough tier
+\* runs the slices as separate TLC processes: initial states are computed on one thread)
+Ctx == IF Slice = 0 THEN { CtxSeq[k] : k \in 1..(IF Level <= 1 THEN 8 ELSE Len(CtxSeq)) } ELSE { CtxSeq[Slice] }
 Sites == T1 \ Pairs
-T2 == T1 \cup { Cat(<<x, y>>) : x \in Ctx, y \in Sites } \cup { Cat(<<y, x>>) : x \in Ctx, y \in Sites }
-      \cup { Alt(<<x, y>>) : x \in {Ch("a"), Ch("-"), Cap(Ch("a"))}, y \in Sites \ ChS }
+InCtx == { Cat(<<x, y>>) : x \in Ctx, y \in Sites } \cup { Cat(<<y, x>>) : x \in Ctx, y \in Sites }
+Rest ==  { Alt(<<x, y>>) : x \in {Ch("a"), Ch("-"), Cap(Ch("a"))}, y \in Sites \ ChS }
       \cup { Alt(<<x, y, z>>) : x, y, z \in ChS }
       \cup { Cat(<<Ch("a"), x, Ch("2"), Ch("}")>>) : x \in ClsSet }
       \cup { Cat(<<x, x, x, x, x>>) : x \in {Ch("a"), Ch(" "), Dot} } \cup { Cat(<<x, x, x, x>>) : x \in {Ch("a"), Dot} }
@@ -344,6 +354,7 @@ T2 == T1 \cup { Cat(<<x, y>>) : x \in Ctx, y \in Sites } \cup { Cat(<<y, x>>) : 
       \cup { Alt(<<Cat(<<c, Ch("a"), Ch("b")>>), Cat(<<Ch("a"), Ch("b")>>)>>) : c \in ChS }
       \cup { Alt(<<Cat(<<Ch("a"), Ch("b")>>), Cat(<<c, Ch("a"), Ch("b")>>)>>) : c \in ChS }
       \cup { Cat(<<Grp(Alt(<<Cat(<<Ch("a"), Ch("b")>>), Cat(<<Ch("a"), Ch("b"), Ch("a")>>)>>)), c>>) : c \in ChS }
+T2 == IF Slice > 0 THEN InCtx ELSE T1 \cup InCtx \cup Rest
 \* canonical: printing and re-parsing gives the same tree (no cat under cat, no alt under alt or cat)
 RECURSIVE Canon(_)
 Canon(e) == CASE e.op = "cat" -> /\ \A k \in DOMAIN e.xs : e.xs[k].op \notin {"cat", "alt"} /\ Canon(e.xs[k])
@@ -354,7 +365,7 @@ Canon(e) == CASE e.op = "cat" -> /\ \A k \in DOMAIN e.xs : e.xs[k].op \notin {"c
               [] OTHER -> TRUE
 Focus == T1 \cup { Cat(<<Ch("a"), x, Ch("2"), Ch("}")>>) : x \in ClsSet } \cup Post(Wrapped)
          \cup { Alt(<<Cat(<<Ch("a"), Ch("b")>>), Cat(<<Ch("a"), Ch("b"), c>>)>>) : c \in ChS }
-         \cup { Alt(<<x, y, z>>) : x, y, z \in ChS } \cup { Cat(<<Rep(Cap(Ch("a")), "0"), Ch("-")>>) }
+         \cup { Alt(<<x, y, z>>) : x, y, z \in ChS } \cup { Cat(<<Rep(Cap(Ch("a")), "0"), Ch("-")>>), Cat(<<Rep(Oct, "1"), Ch("2")>>) }
 Terms == { t \in (IF Level = 0 THEN Focus ELSE T2) : Canon(t) /\ Reread(t) = t }
 
 Same(t) == LET o == Simplify(t) IN
